@@ -261,7 +261,7 @@ theorem unexported_names (f : Field) :
 
 /-- ASCII is decided by the model, the rest by the oracle in `Flags`. -/
 theorem lowerFirst_ascii (c : Char) (r : List Char) (hc : c.toNat < 128) :
-    lowerFirst fl (String.ofList (c :: r)) = c.isLower := by
+    lowerFirst fl (String.ofList (c :: r)) = !c.isUpper := by
   unfold lowerFirst
   simp [String.toList_ofList, hc]
 
